@@ -79,6 +79,45 @@ def b58_enc(b):
     return bytes(out)
 
 
+_KEY_BY_FIRST = {}
+
+
+def key_with_first_byte(b0):
+    """a canonical public key whose first byte is b0 (deterministic)"""
+    if b0 not in _KEY_BY_FIRST:
+        import random as _r
+        g = _r.Random(1000 + b0)
+        while True:
+            k = bytes([b0]) + bytes(g.getrandbits(8) for _ in range(31))
+            if pk_valid(k):
+                _KEY_BY_FIRST[b0] = k
+                break
+    return _KEY_BY_FIRST[b0]
+
+
+def block_respellings(b):
+    """texts that re-spell one block of b58_enc(b) as the numeral of value + m*256^n (m = 1, 2) where that fits the block"""
+    txt = b58_enc(b)
+    out, pos, rest = [], 0, len(b)
+    while rest > 0:
+        n = min(8, rest)
+        k = SIZES[n]
+        val = 0
+        for c in txt[pos:pos + k]:
+            val = val * 58 + ALPHA.index(c)
+        for m in (1, 2):
+            v2 = val + m * 256 ** n
+            if v2 < 58 ** k:
+                ds, x = [], v2
+                for _ in range(k):
+                    x, r_ = divmod(x, 58)
+                    ds.append(ALPHA[r_])
+                out.append(txt[:pos] + bytes(reversed(ds)) + txt[pos + k:])
+        pos += k
+        rest -= n
+    return out
+
+
 def b58_dec(s):
     """None = refused"""
     out = bytearray()
@@ -379,6 +418,16 @@ class C12(Check):
                 add("addr_fmt %s %s %s %s" % (net, t, s.hex(), v.hex()), "one-field-varied/format")
             for (net, kind, pid, s, v) in seq:
                 all_forms(blob_of(net, kind, pid, s, v), "one-field-varied")
+        # the leading characters of the text depend on the tag AND on the first byte of the spend key: every tag with spend keys
+        # whose first byte runs over the whole range (every value in the thorough tier), formatted and read back as text
+        firsts = range(256) if thorough else sorted(set(range(0, 256, 5)) | set(range(200, 256, 2)) | {255})
+        for (net, kind) in TAGS:
+            for b0 in firsts:
+                s_, v_ = key_with_first_byte(b0), valid[b0 % len(valid)]
+                pid = bytes([b0]) * 8
+                t = "int:" + pid.hex() if kind == "int" else kind
+                add("addr_fmt %s %s %s %s" % (net, t, s_.hex(), v_.hex()), "tag-x-first-key-byte/format")
+                add("addr_from_str " + hx(b58_enc(blob_of(net, kind, pid, s_, v_))), "tag-x-first-key-byte/text")
         # constructors from secret keys: from_keypair and from_viewpair (the doc-test key pair of src/util/key.rs first)
         add("addr_of_keys main 8163466f1883598e6dd14027b8da727057165da91485834314f5500a65846f09 "
             "77916d0cd56ed1920aef6ca56d8a41bac915b68e4c46a589e0956e27a7b77404", "from-keys")
@@ -513,6 +562,13 @@ class C12(Check):
         for ln in range(0, 36):
             for ch in (b"1", b"z", b"2"):
                 add("b58_dec " + hx(ch * ln), "illegal-length-or-overflow")
+        # every block of a valid address text re-spelt as the numeral of (value + 256^n): same residue modulo 256^n, so a decoder
+        # that cuts a block down to its n bytes without the range check reads the same address from a second spelling.  The
+        # last, short block (5 bytes in 7 symbols) can ALWAYS be re-spelt this way, a full block in about a third of the cases
+        for b in blobs[::max(1, len(blobs) // 18)][:18]:
+            for alt in block_respellings(b):
+                add("addr_from_str " + hx(alt), "block-overflow-respelling")
+                add("b58_dec " + hx(alt), "block-overflow-respelling")
         add("b58_dec " + hx(b"jpXCZedGfVQ"), "block-boundary")      # 2^64-1
         add("b58_dec " + hx(b"jpXCZedGfVR"), "block-boundary")      # 2^64
         for _ in range(5000 if not thorough else 150000):
